@@ -441,11 +441,10 @@ def _yield_guards(f):
                 arm = 'then' if any(
                     x is s_ or any(y is x for y in ast.walk(s_))
                     for s_ in par.body) else 'else'
-                g.append((arm, ' '.join(src(par.test).split())))
+                g.append((arm, canon(f, par.test)))
             elif isinstance(par, (ast.For, ast.While)):
-                g.append(('loop', ' '.join(src(
-                    par.iter if isinstance(par, ast.For)
-                    else par.test).split())))
+                g.append(('loop', canon(
+                    f, par.iter if isinstance(par, ast.For) else par.test)))
             x = par
         cls_ = src(n.value.func).rpartition('.')[2] \
             if isinstance(n.value, ast.Call) else src(n.value)
@@ -462,6 +461,16 @@ def queue_validation_guards(prog, an, rep):
         f = need_func(an, BRQ + '.' + meth)
         found = _yield_guards(f)
         have = Counter((c_, g) for c_, g, _ in found)
+        # the table is written with the locals of the pinned tree; both
+        # sides are compared with locals replaced by what they stand for
+
+        def ctext(t):
+            try:
+                return canon(f, ast.parse(t, mode='eval').body)
+            except SyntaxError:
+                return t
+        table = [(c_, tuple((arm, ctext(t)) for arm, t in g))
+                 for c_, g in table]
         for c_, g in table:
             rep.evaluated()
             ok = have.get((c_, g), 0) > 0
